@@ -65,6 +65,39 @@ func (d *dynObj) Keys() []string {
 	return ks
 }
 
+type dynArr struct{ a []goja.Value }
+
+func (d *dynArr) Len() int { return len(d.a) }
+func (d *dynArr) Get(idx int) goja.Value {
+	if idx < 0 || idx >= len(d.a) {
+		return nil
+	}
+	return d.a[idx]
+}
+func (d *dynArr) Set(idx int, val goja.Value) bool {
+	if idx < 0 || idx > 1<<16 {
+		return false
+	}
+	if val == nil {
+		val = goja.Undefined()
+	}
+	for len(d.a) <= idx {
+		d.a = append(d.a, goja.Undefined())
+	}
+	d.a[idx] = val
+	return true
+}
+func (d *dynArr) SetLen(n int) bool {
+	if n < 0 || n > 1<<16 {
+		return false
+	}
+	for len(d.a) < n {
+		d.a = append(d.a, goja.Undefined())
+	}
+	d.a = d.a[:n]
+	return true
+}
+
 type goStruct struct {
 	A int
 	B string
@@ -313,6 +346,8 @@ func (s *state) mk(id int, kind, proto string) string {
 		v = s.r.ToValue([]interface{}{101, 102})
 	case "gostruct":
 		v = s.r.ToValue(&goStruct{A: 101, B: "x"})
+	case "dynarr":
+		v = s.r.NewDynamicArray(&dynArr{a: []goja.Value{s.r.ToValue(101), s.r.ToValue(102)}})
 	case "dyn":
 		v = s.r.NewDynamicObject(&dynObj{m: map[string]goja.Value{"a": s.r.ToValue(101)}})
 	default:
